@@ -4,6 +4,7 @@ Line-protocol front end for the bzip2 specification and stage models
 -/
 import Compress.Util
 import Compress.Bzip2.Spec
+import Compress.Bzip2.Writer
 import Compress.Drv.Prefix
 
 namespace Compress.Drv
@@ -65,5 +66,19 @@ def handleBzcrc (kv : List (String × String)) : String :=
   match bytesOfHex (lookupD kv "in" "-") with
   | some bs => toString (blockCRC bs)
   | none => "bad-line"
+
+end Compress.Drv
+
+namespace Compress.Drv
+open Compress.Util Compress.Bzip2 Compress
+
+/-- kind `bzw`: the bzip2.Writer model. -/
+def handleBzw (kv : List (String × String)) : String :=
+  match bytesOfHex (lookupD kv "in" "-"), parseNat (lookupD kv "level" "6") with
+  | some bs, some lvl =>
+    match encodeStream lvl bs with
+    | none => "model-panic"
+    | some out => hexOfBytes out
+  | _, _ => "bad-line"
 
 end Compress.Drv
